@@ -907,6 +907,24 @@ def distribution(d, case, obs):
     bump("unretrievable_entries", min(sum(1 for e in ents if e[2][0] != "ok"), 5))
 
 
+def extra_evidence(results):
+    """counts for the evidence file: how much of each observation kind this run contained"""
+    ok = [r for r in results if not r.get("abnormal")]
+    probes = sum(len(r["obs"].get("probes", [])) for r in ok)
+    return {
+        "spec_validation": {"what": "Spec.spec_remap (default visit) compared with copy.deepcopy(root) in Coq (folded into agree)",
+                            "cases": sum(1 for r in ok if "deepcopy" in r["obs"])},
+        "enter_exit_hook_cases": sum(1 for r in ok if "hooks" in r["obs"]),
+        "visit_calls_observed": sum(len(r["obs"].get("calls", [])) for r in ok),
+        "visit_calls_with_container_identity": sum(1 for r in ok for i in r["obs"].get("call_ids", []) if i is not None),
+        "get_path_probes": probes,
+        "research_entries": sum(len(r["obs"]["research"][1]) for r in ok if r["obs"].get("research", ["x"])[0] == "ok"),
+        "visit_raised_and_propagated": sum(1 for r in ok if r["obs"].get("out", ["ok"])[0] == "raise" and r["obs"]["out"][1] == "VisitBoom"),
+        "cases_inside_a_known_guard": sum(1 for r in results if r.get("known") and not r.get("holds")),
+        "deep_chain_cases": sum(1 for r in ok if len(r["case"].get("nodes", [])) >= 16),
+    }
+
+
 def sample(case, obs):
     return {"nodes": case["nodes"], "root": case["root"], "visit": case["visit"], "query": case["query"],
             "out": obs["out"], "calls": obs["calls"][:5],
